@@ -13,6 +13,7 @@ mod proofcase;
 mod streams;
 mod exec;
 mod findings;
+mod fzn;
 mod gen;
 mod ir;
 mod json;
